@@ -4,7 +4,7 @@ import random
 
 from vlib import docs as D
 from vlib import gt, walk
-from vlib.par import pmap
+from vlib.par import pmap, timeout_failure
 
 PROPERTY = 'C08'
 LEVEL = 'other'
@@ -148,7 +148,7 @@ def bounded(tier, seed, repo_root):
     pj = [(a, b, o) for a in tricky for b in tricky for o in gt.OPTION_COMBOS[:6:2] if a is not b]
     for _ in range(700 if tier == 'quick' else 7000):
         pj.append((rnd.choice(maps), rnd.choice(maps), gt.OPTION_COMBOS[rnd.randrange(9)]))
-    fails = [f for fs in pmap(_perm_job, pj, repo_root) for f in fs]
+    fails = [f for fs in pmap(_perm_job, pj, repo_root, job_timeout=60, on_timeout=timeout_failure('C08')) for f in fs]
     elems = [0, 1, "a", "b", "", None, True, [1], [2], {"a": 1}]
     sj = []
     for n in (2, 3, 4):
@@ -156,7 +156,7 @@ def bounded(tier, seed, repo_root):
             for i, j in itertools.combinations(range(n), 2):
                 if not D.data_equal(lst[i], lst[j]):
                     sj.append((list(lst), i, j, gt.OPTION_COMBOS[rnd.randrange(9)]))
-    fails += [f for fs in pmap(_swap_job, sj, repo_root) for f in fs]
+    fails += [f for fs in pmap(_swap_job, sj, repo_root, job_timeout=60, on_timeout=timeout_failure('C08')) for f in fs]
     return [{
         'name': 'C08.permutations-and-swaps', 'bound': f"{len(pj)} pairs of mappings with 1-4 keys (nested mappings included), every key "
         f"permutation (<= 6 per document) x random option combination; {len(sj)} swaps of unequal elements in lists of length 2-4",
